@@ -138,7 +138,7 @@ def lean_ty(t):
         if t[0] == "fn":
             return "(" + " → ".join(lean_ty(x) for x in list(t[1]) + [t[2]]) + ")"
     return {"nat": "Nat", "int": "Int", "bool": "Bool", "prio": "π", "obj": "Nat", "entry": "Entry π",
-            "unit": "Unit", "pq": "PQ π"}[t]
+            "unit": "Unit", "pq": "PQ π", "elem": "α"}[t]
 
 
 def ann_ty(a):
@@ -268,6 +268,8 @@ _PURE = Leaf("<pure>")
 
 class Fn:
     """translation of one method"""
+    BINDERS = BINDERS     # the fixed parameters every generated definition takes …
+    FIX = "H plt"         # … and how they are passed on
 
     def __init__(self, cls, fn, helpers, module=None):
         self.cls, self.fn, self.helpers, self.module = cls, fn, helpers, module
@@ -469,7 +471,27 @@ class Fn:
         if isinstance(e, ast.BinOp):
             return self.ev_list([e.left, e.right], env, lambda vs, env2: k(self.binop(e, vs[0], vs[1]), env2))
         if isinstance(e, ast.BoolOp):
-            vs = [self.pure(x, env) for x in e.values]
+            try:
+                vs = [self.pure(x, env) for x in e.values]
+            except Unsupported:
+                # an operand that can raise (or has an effect): short-circuit evaluation, the
+                # continuation is duplicated like for an `if`
+                first, rest = e.values[0], e.values[1:]
+                rest_e = rest[0] if len(rest) == 1 else ast.BoolOp(op=e.op, values=rest)
+                is_and = isinstance(e.op, ast.And)
+
+                def kb(v, env2):
+                    if v.ty != "bool":
+                        raise Unsupported("and / or of operands that are not booleans")
+
+                    def kr(w, env3):
+                        if w.ty != "bool":
+                            raise Unsupported("and / or of operands that are not booleans")
+                        return k(w, env3)
+                    go = self.ev(rest_e, env2.copy(), kr)
+                    stop = k(Val("false" if is_and else "true", "bool"), env2.copy())
+                    return If(v.lean, go, stop) if is_and else If(v.lean, stop, go)
+                return self.ev(first, env, kb)
             if any(v.ty != "bool" for v in vs):
                 # `a or b` is one of its operands, not a truth value
                 raise Unsupported("and / or of operands that are not booleans")
@@ -1204,7 +1226,7 @@ class Fn:
     def carried(self, stmts, env, extra=()):
         """loop-carried variables: [(kind, python name)] in a fixed order; self's state first"""
         mod = self.assigned_in(stmts)
-        out = [("obj", self.selfname)]
+        out = [("obj", self.selfname)] if self.selfname in env.objs else []
         for o in env.objs:
             if o != self.selfname and o in mod:
                 out.append(("obj", o))
@@ -1429,7 +1451,7 @@ class Fn:
         self.depth = saved
         self.cur_rais = saved_rais
         self.aux.append((f"/-- the `finally:` block at src/asynkit/tools.py:{s.finalbody[0].lineno - 1} -/\n"
-                         f"def {name} {BINDERS}{binders} : Except Exc Unit × {fty} :=", node))
+                         f"def {name} {self.BINDERS}{binders} : Except Exc Unit × {fty} :=", node))
 
         def run_fin(env2, then):
             for kind, n in items:
@@ -1439,7 +1461,7 @@ class Fn:
             pat, env3 = self.after_frame(items, env2)
             env3.dead |= fin_dead
             exc = self.fresh("exc")
-            return Match(f"{name} H plt{args}", [(f"(.error {exc}, {pat})", ctx.rais(exc, env3)),
+            return Match(f"{name} {self.FIX}{args}", [(f"(.error {exc}, {pat})", ctx.rais(exc, env3)),
                                                   (f"(.ok _, {pat})", then(env3))])
         ctx2 = ctx.with_(end=lambda e: run_fin(e, ctx.end),
                          ret=lambda v, e: run_fin(e, lambda e3: ctx.ret(v, e3)),
@@ -1466,7 +1488,7 @@ class Fn:
         saved_rais = self.cur_rais
 
         def b_next(e):
-            return Leaf(f"{name} H plt{self.pack(items, e, sep=True)}")
+            return Leaf(f"{name} {self.FIX}{self.pack(items, e, sep=True)}")
 
         def b_exit(e):
             return Leaf(f".next {atom(self.pack(items, e))}")
@@ -1476,10 +1498,10 @@ class Fn:
         self.depth = 0
         self.cur_rais = saved_rais
         self.aux.append((f"/-- the `while` loop at src/asynkit/tools.py:{s.lineno} -/\n"
-                         f"def {name} {BINDERS}{binders} : PyRt.Ctl {fty} Empty (⟪R⟫) :=", node))
+                         f"def {name} {self.BINDERS}{binders} : PyRt.Ctl {fty} Empty (⟪R⟫) :=", node))
         args = self.pack(items, env, sep=True)
         pat, env3 = self.after_frame(items, env)
-        return Match(f"{name} H plt{args}", [(".ret r", Leaf("r")), (f".next {pat}", ctx.end(env3)),
+        return Match(f"{name} {self.FIX}{args}", [(".ret r", Leaf("r")), (f".next {pat}", ctx.end(env3)),
                                               (".brk e", Leaf("nomatch e"))])
 
     def yield_stmt(self, y, env, ctx):
